@@ -56,7 +56,7 @@ def laws_event(i, a, b):
 
 def pick_vals(kind, rnd, n):
     """magnitudes of either sign and zero, inside the kind's legal domain"""
-    base = [2.5, -1.75, 0.0, 1e-3, 4.2e5]
+    base = [2.5, -1.75, 0.0, 1e-3, 4.2e5, 6, -4, 1000]        # (int-valued quantities are legal too)
     out = [v for v in base if kind in ('int', 'float') or legal(kind, v)]
     while len(out) < n:
         v = float(f'{rnd.uniform(1, 10) * rnd.choice([1, -1]):.6g}e{rnd.randint(-6, 6)}')
